@@ -10,7 +10,7 @@ import Nstd.Buffer.Model
   model then gives a block allocated by the operation the capacity `max needed n` (capacity policy is
   an environment parameter of the model); without it the model uses the exact capacity Buffer.hpp uses today.
   `eq v w` prints the result of the comparison, `state v` the white-box view
-  `state <size> <capacity> <head-room|-> <own|att|dflt|stale>` of one variable (ties the
+  `state <size> <_capacity> <head-room|-> <own|att|dflt|stale> size=<size()> empty=<isEmpty()> capacity=<capacity()>` of one variable (ties the
   branch-selecting state of the model to the implementation), `heap` the number of live
   allocations (ties the allocation ledger); none of them changes the state.
 -/
@@ -83,10 +83,11 @@ def stepLine (st : State) (ws : List String) : State × String :=
     | some v =>
       (st, match st.getBuf v with
         | some b =>
-          match b.store with
+          (match b.store with
           | .own _ _ => s!"state {b.e - b.s} {b.cap} {b.s} own"
           | .att _ => s!"state {b.e - b.s} {b.cap} - att"
-          | .dflt c => s!"state {b.e - b.s} {b.cap} - {if c == v then "dflt" else "stale"}"
+          | .dflt c => s!"state {b.e - b.s} {b.cap} - {if c == v then "dflt" else "stale"}") ++
+            s!" size={b.size} empty={if b.isEmpty then 1 else 0} capacity={b.cap}"
         | none => "bad-op")
     | none => (st, "bad-op")
   | _ =>
